@@ -298,10 +298,16 @@ def mbox_lock_check(events, inode):
         c, a = e["call"], e["a"]
         if c == "flock" and a[1].startswith(tag) and a[-2:] == ["0", "0"] and int(a[2]) & fcntl.LOCK_EX:
             locked = True
+        elif c == "flock" and a[1].startswith(tag) and a[-2:] == ["0", "0"] and int(a[2]) & fcntl.LOCK_UN:
+            locked = False
         elif c == "close" and a[1].startswith(tag):
             locked = False
         elif c == "write" and a[1].startswith(tag) and not locked:
             return "data appended to the mbox outside a successful flock(LOCK_EX) ... close section"
+        elif c == "ftruncate" and a[1].startswith(tag) and not locked:
+            # the roll-back belongs to the append: once the lock is gone another delivery may have appended behind this one, and cutting the
+            # file back to the remembered length would destroy it
+            return "the mbox was cut back (roll-back after a failed write) outside the flock(LOCK_EX) ... close section"
     return None
 
 
@@ -338,6 +344,10 @@ def judge_mbox(c, mode, rc, events, t0, t1, stats):
             return "failure reported with exit %s, documented 111" % rc
         if after != before:
             return "exit 111 but the mbox was not restored: %d bytes, before %d" % (len(after), len(before))
+        if inode is not None:
+            e = mbox_lock_check(events, inode)
+            if e:
+                return e
     if kind == "fault" and rc == 0:
         _, gen, cls, k, fk = mode
         if cls in ("write", "fsync") and fk not in ("short", str(E.EINTR)):
